@@ -317,6 +317,14 @@ func (s *sim) restart(n *node, bootCrash int) {
 			n.halted = true
 			return
 		}
+		if strings.Contains(bootErr.Error(), "should not happen") {
+			// baseWAL.SearchForHeight's backwards search computes a file index below the group's first file when the
+			// group has exactly two files and the head holds no height marker (the state right after a rotation): every
+			// start panics in catchupReplay until the WAL is removed by hand. Same root cause as C38 search_panic.
+			s.fail("C33", "restart_failed_wal_search_panic", "n%d cannot restart after its crash (store=%d state=%d app=%d before the handshake, power-loss image=%v): catchupReplay -> baseWAL.SearchForHeight panics on a two-file WAL group whose head has no height marker: %v", n.id, bsH, stH, app.LastBlockHeight, n.lastCrashPower, bootErr)
+			n.halted = true
+			return
+		}
 		s.fail("C33", "restart_failed", "n%d cannot restart after its crash (store=%d state=%d app=%d before the handshake, power-loss image=%v): %v", n.id, bsH, stH, app.LastBlockHeight, n.lastCrashPower, bootErr)
 		n.halted = true
 		return
